@@ -126,7 +126,7 @@ def afm_model(g, n):
                     dv, nv = rng.choice([0, 0, rng.randint(1, 9)]), rng.choice([0, 0, 100, 7])   # default 0 with another null value
                 else:
                     elems = rng.sample(["aa", "bb", "low", "High", "inf", "nan", "infinity", 3, 7, 0, 1.5, 2.25, 10.0,
-                                    2**53 + 1, 10**22 + 7, 2**62 - 1, '"cafe\u0301"', '"caf\u00e9"', '"\u212b"', '"x y"'], rng.randint(1, 3))
+                                    2**53 + 1, 10**22 + 7, 2**62 - 1, 1e16, 1.5e17, 1e22, '"cafe\u0301"', '"caf\u00e9"', '"\u212b"', '"x y"'], rng.randint(1, 3))
                     dom = dict(ranges=[], elems=elems)
                     dv, nv = elems[0], rng.choice(["none", 0, 2])
                 f["attrs"].append(spec.A(an, default=dv, domain=dom, null=nv))
@@ -248,6 +248,26 @@ def run(ctx):
 
 
 # ------------------------------------------------------------------------------ third-party AFM documents (C09)
+def afm_literal(v):
+    """the reference emitter's spelling of a value: a real number in positional notation (DOUBLE has no exponent)"""
+    if isinstance(v, float):
+        from fractions import Fraction
+        q = Fraction(repr(v))
+        num, den = q.numerator, q.denominator         # den is a power of ten times ... repr is a finite decimal
+        sign = "-" if num < 0 else ""
+        num = abs(num)
+        scale = 0
+        while den != 1:
+            num *= 10
+            scale += 1
+            if num % den == 0:
+                num //= den
+                den = 1
+        text = str(num).rjust(scale + 1, "0")
+        return sign + (text[:-scale] + "." + text[-scale:] if scale else text + ".0")
+    return str(v)
+
+
 def emit_afm(m, rng, g):
     def sp():
         return rng.choice(["", " ", "  "])
@@ -281,8 +301,8 @@ def emit_afm(m, rng, g):
                 if d["ranges"]:
                     dom = "Integer " + "".join(f"[{lo} to {hi}]" for lo, hi in d["ranges"])
                 else:
-                    dom = "[" + ",".join(str(e) for e in d["elems"]) + "]"
-                out += f"{f['name']}.{a['name']}: {dom},{a['default']},{a['null']};\n"
+                    dom = "[" + ",".join(afm_literal(e) for e in d["elems"]) + "]"
+                out += f"{f['name']}.{a['name']}: {dom},{afm_literal(a['default'])},{afm_literal(a['null'])};\n"
     else:
         g.count("afm_choice", "no-attributes-section")
     if m["ctcs"] or m.get("blocks") or rng.random() < 0.5:
@@ -352,8 +372,12 @@ def run_third_party(ctx):
                 # qualified by the owner, the plain constraints after it are not
                 k = g.rng.randint(0, len(m["ctcs"]))
                 owner = g.rng.choice([f["name"] for f in spec.spec_features(m["root"])])
-                blk = OP(g.rng.choice(["IMPLIES", "AND", "OR"]), T("Xq"), OP("NOT", T("Yq")))
-                qual = OP(blk[0][1], T(owner + ".Xq"), OP("NOT", T(owner + ".Yq")))
+                # (a bare attribute name, i.e. a LOWERCASE token, is relative to the owner; a feature name or a qualified
+                # attribute inside the block is not)
+                other = g.rng.choice([f["name"] for f in spec.spec_features(m["root"])])
+                inner = g.rng.choice([T("yq"), T(other), T(other + ".zq")])
+                blk = OP(g.rng.choice(["IMPLIES", "AND", "OR"]), T("xq"), OP("NOT", inner))
+                qual = OP(blk[0][1], T(owner + ".xq"), OP("NOT", T(owner + ".yq") if inner == T("yq") else inner))
                 expected = dict(m, ctcs=m["ctcs"][:k] + [("block", qual)] + m["ctcs"][k:])
                 m = dict(m, ctcs=m["ctcs"][:k], blocks=[(owner, blk)], after_blocks=m["ctcs"][k:])
             text = emit_afm(m, g.rng, g)
